@@ -76,7 +76,8 @@ func mkSV(mask int, variant int) spec.SchemaValidations {
 			v.Enum = []interface{}{}
 		} else {
 			// contents and length vary with the variant: a writer that reuses storage shows
-			v.Enum = [][]interface{}{{"a", "b"}, {"c"}, {"d", "e", "f"}}[variant/2%3]
+			// (Go values of several types, as code that builds a set by hand has them: a reader hands back what was stored)
+			v.Enum = [][]interface{}{{"a", "b"}, {"c", 3, int64(7)}, {"d", "e", 1.5}}[variant/2%3]
 			v.Enum = append([]interface{}{}, v.Enum...)
 		}
 	}
